@@ -1,5 +1,6 @@
 CONSTANTS
  MaxSegs = 4
+ PtrMode = FALSE
  Nested = FALSE
 INIT Init
 NEXT Next
